@@ -50,8 +50,15 @@ func TestMain(m *testing.M) {
 }
 
 type Call struct {
-	Key int `json:"key"`
+	Key   int `json:"key"`
+	Cache int `json:"cache,omitempty"` // which of the two Cache objects
+	// Nest: while computing, the callable itself calls once(k<NestKey>) on the OTHER cache (a cached
+	// computation that consults a second cache); -1 = no nested call
+	NestKey int `json:"nestkey"`
 }
+
+// ck is the composite key of a call: cache * 100 + key.
+func (c Call) ck() int { return (c.Cache%2)*100 + c.Key }
 
 type Case struct {
 	Callers  [][]Call       `json:"callers"`
@@ -78,13 +85,16 @@ func exec(c Case) (v ev.Verdict) {
 	var out bytes.Buffer
 	thread, globals := proj.REPLEnv(&out, pkg)
 	_ = thread
-	cv, err := starlark.Call(&starlark.Thread{Name: "mk"}, globals["Cache"], nil, nil)
-	if err != nil {
-		return ev.Verdict{Skip: "cache-constructor-failed"}
-	}
-	onceV, err := cv.(starlark.HasAttrs).Attr("once")
-	if err != nil || onceV == nil {
-		return ev.Verdict{Skip: "no-once"}
+	var onces [2]starlark.Value
+	for i := range onces {
+		cv, err := starlark.Call(&starlark.Thread{Name: "mk"}, globals["Cache"], nil, nil)
+		if err != nil {
+			return ev.Verdict{Skip: "cache-constructor-failed"}
+		}
+		onces[i], err = cv.(starlark.HasAttrs).Attr("once")
+		if err != nil || onces[i] == nil {
+			return ev.Verdict{Skip: "no-once"}
+		}
 	}
 	o := &obs{invoked: map[int]int{}, succeeded: map[int][]starlark.Value{}, missed: map[int]int{}, stored: map[int]bool{}, results: map[int][]starlark.Value{}}
 
@@ -96,39 +106,52 @@ func exec(c Case) (v ev.Verdict) {
 		s.Go(fmt.Sprintf("caller%d", ci), func() {
 			th := &starlark.Thread{Name: fmt.Sprintf("caller%d", ci)}
 			for _, call := range calls {
-				key := call.Key
-				fn := starlark.NewBuiltin("callable", func(*starlark.Thread, *starlark.Builtin, starlark.Tuple, []starlark.Tuple) (starlark.Value, error) {
-					o.mu.Lock()
-					idx := o.ninv
-					o.ninv++
-					o.invoked[key]++
-					o.mu.Unlock()
-					for i := 0; i < c.Yields; i++ {
-						verifhook.Yield("callable.body")
-					}
-					if idx < len(c.Outcomes) && c.Outcomes[idx] {
-						return nil, fmt.Errorf("callable %d fails", idx)
-					}
-					var val starlark.Value = starlark.NewList([]starlark.Value{starlark.MakeInt(idx)}) // fresh, identity-comparable
-					if idx < len(c.Vals) {
-						// what a callable without a return statement, or a cheap probe, yields: falsy singletons
-						switch c.Vals[idx] {
-						case 1:
-							val = starlark.None
-						case 2:
-							val = starlark.False
-						case 3:
-							val = starlark.MakeInt(0)
-						case 4:
-							val = starlark.String("")
+				call := call
+				key := call.ck()
+				var mkfn func(key int, nest *Call) *starlark.Builtin
+				mkfn = func(key int, nest *Call) *starlark.Builtin {
+					return starlark.NewBuiltin("callable", func(cth *starlark.Thread, _ *starlark.Builtin, _ starlark.Tuple, _ []starlark.Tuple) (starlark.Value, error) {
+						o.mu.Lock()
+						idx := o.ninv
+						o.ninv++
+						o.invoked[key]++
+						o.mu.Unlock()
+						for i := 0; i < c.Yields; i++ {
+							verifhook.Yield("callable.body")
 						}
-					}
-					o.mu.Lock()
-					o.succeeded[key] = append(o.succeeded[key], val)
-					o.mu.Unlock()
-					return val, nil
-				})
-				res, err := starlark.Call(th, onceV, starlark.Tuple{starlark.String(fmt.Sprintf("k%d", key)), fn}, nil)
+						if nest != nil {
+							// the computation consults the other cache on the same thread
+							starlark.Call(cth, onces[nest.Cache%2], starlark.Tuple{starlark.String(fmt.Sprintf("k%d", nest.Key)), mkfn(nest.ck(), nil)}, nil)
+						}
+						if idx < len(c.Outcomes) && c.Outcomes[idx] {
+							return nil, fmt.Errorf("callable %d fails", idx)
+						}
+						var val starlark.Value = starlark.NewList([]starlark.Value{starlark.MakeInt(idx)}) // fresh, identity-comparable
+						if idx < len(c.Vals) {
+							// what a callable without a return statement, or a cheap probe, yields: falsy singletons
+							switch c.Vals[idx] {
+							case 1:
+								val = starlark.None
+							case 2:
+								val = starlark.False
+							case 3:
+								val = starlark.MakeInt(0)
+							case 4:
+								val = starlark.String("")
+							}
+						}
+						o.mu.Lock()
+						o.succeeded[key] = append(o.succeeded[key], val)
+						o.mu.Unlock()
+						return val, nil
+					})
+				}
+				var nest *Call
+				if call.NestKey >= 0 && call.Cache%2 == 0 {
+					nest = &Call{Key: call.NestKey, Cache: 1, NestKey: -1}
+				}
+				fn := mkfn(key, nest)
+				res, err := starlark.Call(th, onces[call.Cache%2], starlark.Tuple{starlark.String(fmt.Sprintf("k%d", call.Key)), fn}, nil)
 				o.mu.Lock()
 				if err != nil {
 					o.errs++
@@ -180,7 +203,10 @@ func exec(c Case) (v ev.Verdict) {
 	keys := map[int]bool{}
 	for _, calls := range c.Callers {
 		for _, call := range calls {
-			keys[call.Key] = true
+			keys[call.ck()] = true
+			if call.NestKey >= 0 && call.Cache%2 == 0 {
+				keys[Call{Key: call.NestKey, Cache: 1}.ck()] = true
+			}
 		}
 	}
 	for key := range keys {
@@ -192,7 +218,7 @@ func exec(c Case) (v ev.Verdict) {
 			invoked = true
 			return starlark.String("probe"), nil
 		})
-		r, err := starlark.Call(&starlark.Thread{Name: "probe"}, onceV, starlark.Tuple{starlark.String(fmt.Sprintf("k%d", key)), probe}, nil)
+		r, err := starlark.Call(&starlark.Thread{Name: "probe"}, onces[key/100], starlark.Tuple{starlark.String(fmt.Sprintf("k%d", key%100)), probe}, nil)
 		if err != nil || !invoked || r != starlark.String("probe") {
 			return ev.Failf("failure-cached", "key k%d: every callable failed, yet a later once call returned (%v, %v) without invoking its callable", key, r, err)
 		}
@@ -203,9 +229,9 @@ func exec(c Case) (v ev.Verdict) {
 	for _, calls := range c.Callers {
 		seen := map[int]bool{}
 		for _, call := range calls {
-			if !seen[call.Key] {
-				seen[call.Key] = true
-				perKey[call.Key]++
+			if !seen[call.ck()] {
+				seen[call.ck()] = true
+				perKey[call.ck()]++
 			}
 		}
 	}
@@ -221,14 +247,23 @@ func gen(t *rapid.T) Case {
 	nc := rapid.IntRange(2, 6).Draw(t, "ncallers")
 	nk := rapid.IntRange(1, 3).Draw(t, "nkeys")
 	c := Case{Yields: rapid.IntRange(0, 2).Draw(t, "yields")}
+	two := rapid.IntRange(0, 2).Draw(t, "twocaches") == 2 // two Cache objects, computations of one may consult the other
 	total := 0
 	for i := 0; i < nc; i++ {
 		n := rapid.IntRange(1, 3).Draw(t, "ncalls")
 		calls := make([]Call, n)
 		for j := range calls {
-			calls[j] = Call{Key: rapid.IntRange(0, nk-1).Draw(t, "key")}
+			calls[j] = Call{Key: rapid.IntRange(0, nk-1).Draw(t, "key"), NestKey: -1}
+			if two {
+				calls[j].Cache = rapid.IntRange(0, 1).Draw(t, "cache")
+				// only computations of the first cache consult the second: the caches hold their lock while a
+				// callable runs, so nesting in both directions is a lock-order inversion of the caller's making
+				if calls[j].Cache == 0 && rapid.IntRange(0, 2).Draw(t, "nest") == 2 {
+					calls[j].NestKey = rapid.IntRange(0, nk-1).Draw(t, "nestkey")
+				}
+			}
 		}
-		total += n
+		total += 2 * n // nested computations draw outcomes too
 		c.Callers = append(c.Callers, calls)
 	}
 	c.Outcomes = make([]bool, total)
